@@ -91,6 +91,30 @@ Proof.
         unfold s1. cbn [ch]. apply updc_other. intros E. injection E as -> -> ->. apply Hn. split; [reflexivity|left; reflexivity].
 Qed.
 
+(* ---- single blocking send / receive of one rank inside an arbitrary global state ---------------------- *)
+Lemma run_send1 s r d t m k : pr s r = send d t m k ->
+  exists s', run 1 s s' /\ pr s' r = k /\ (forall r', r' <> r -> pr s' r' = pr s r') /\
+    ch s' r d t = ch s r d t ++ [m] /\
+    (forall a b t', (a, b, t') <> (r, d, t) -> ch s' a b t' = ch s a b t').
+Proof.
+  intros H. unfold send in H. pose proof (step_send s r d t m _ H) as Hstep. cbv beta in Hstep.
+  eexists. split; [econstructor; [exact Hstep|apply run_nil]|]. cbn [pr ch].
+  split; [apply updp_same|]. split; [intros r' Hr'; apply updp_other; exact Hr'|].
+  split; [apply updc_same|]. intros a b t' Hn. apply updc_other. exact Hn.
+Qed.
+
+Lemma run_recv1 s r src t k msg q : pr s r = recv src t k -> 0 <= src -> ch s src r t = msg :: q ->
+  exists s', run 1 s s' /\ pr s' r = k msg /\ (forall r', r' <> r -> pr s' r' = pr s r') /\
+    ch s' src r t = q /\
+    (forall a b t', (a, b, t') <> (src, r, t) -> ch s' a b t' = ch s a b t').
+Proof.
+  intros H Hsrc Hc. unfold recv in H. pose proof (step_recv s r src t _ msg q Hsrc H Hc) as Hstep.
+  cbv beta in Hstep. cbn [tl] in Hstep.
+  eexists. split; [econstructor; [exact Hstep|apply run_nil]|]. cbn [pr ch].
+  split; [apply updp_same|]. split; [intros r' Hr'; apply updp_other; exact Hr'|].
+  split; [apply updc_same|]. intros a b t' Hn. apply updc_other. exact Hn.
+Qed.
+
 (* ---- a group of ranks: everybody's sends ------------------------------------------------------------- *)
 Lemma sends_all (Sd : Z -> list (Z * Z * payload)) (K1 : Z -> prog) : forall rs, NoDup rs -> forall s,
   (forall r, In r rs -> pr s r = do_sends (Sd r) (K1 r)) ->
